@@ -2,8 +2,8 @@
 from ..rules import delivery
 from .common import declare
 
-RULES = ['MAILBOX', 'SINGLE-CONSUMER', 'SERIAL-DRAIN', 'EMIT-SIG', 'PASS-VALUE']
-FLOORS = {'MAILBOX': 2, 'SINGLE-CONSUMER': 1, 'SERIAL-DRAIN': 1, 'EMIT-SIG': 2, 'PASS-VALUE': 1}
+RULES = ['MAILBOX', 'SINGLE-CONSUMER', 'SERIAL-DRAIN', 'EMIT-SIG', 'PASS-VALUE', 'FANOUT']
+FLOORS = {'MAILBOX': 2, 'SINGLE-CONSUMER': 1, 'SERIAL-DRAIN': 1, 'EMIT-SIG': 2, 'PASS-VALUE': 1, 'FANOUT': 3}
 
 META = {
     'level': "Static analysis of latest's single-slot mailbox: the wait on the edge-triggered Condition is guarded by a predicate "
@@ -26,6 +26,8 @@ def run(ctx, R):
     R.run(delivery.check_serial_drain, ctx, R, cls)
     R.run(delivery.check_emit_sig, ctx, R, cls)
     R.run(delivery.check_pass_value, ctx, R, cls)
+    # the forwarder delivers through Stream._emit: a consumer that detaches itself during delivery must not kill it
+    R.run(delivery.check_fanout, ctx, R)
 
 
 META['level'] += ' MAILBOX also requires a notification after every store into the slot and a slot that wraps the element (no element value can look like the empty marker).'
